@@ -35,6 +35,11 @@ ENGINES["solversim"] = {
     "ldflags": WRAP_MALLOC,
 }
 
+ENGINES["expsim"] = {
+    "sources": LIB + [("nosan", "sim/sched.cpp"), ("nosan", "sim/simalloc.cpp"), ("harness", "engines/expsim/expsim.cpp")],
+    "ldflags": WRAP_MALLOC + ["-Wl,--wrap=gsl_rng_uniform_int"],
+}
+
 REAL_STUB_COMMON = {
     "real": ["every line of /repo/include and /repo/src that the engine links (compiled from the working tree)"],
     "simulated": [],
@@ -149,3 +154,23 @@ PROPS["C10"] = sol_prop("Profile: up to 8 segments over the full operation alpha
 PROPS["C15"]["batches"]["quick"].append({"engine": "solversim", "config": "asan", "runs": 1500, "deadline": 40, "prop": "C15"})
 PROPS["C15"]["batches"]["thorough"].append({"engine": "solversim", "config": "asan", "runs": 100000, "deadline": 900, "prop": "C15"})
 PROPS["C15"]["real_vs_stub"] = {"real": VEC_REAL_STUB["real"] + SOL_REAL_STUB["real"], "simulated": VEC_REAL_STUB["simulated"] + SOL_REAL_STUB["simulated"]}
+
+
+PROPS["C07"] = {
+    "level": "exploration",
+    "rule": ("plans are generated from (VERIF_SEED, run index): a history of 1-12 calls on one simulated thread, each matrix_exponential(A) (75%) or a.UTransform(V,i*s) (25%), "
+             "n = 2..6, matrix class in {anti-Hermitian, negative semi-definite Hermitian, normal, general dense, diagonal, nilpotent, nearly diagonal, indefinite Hermitian}, "
+             "1-norm placed at 0.5/0.9/0.99/1.01/1.1/2 times each Pade threshold (55%) or log-uniform in 1e-6..1e3 (capped at 50 for non-normal classes); the estimator's random "
+             "bits come from the plan (uniform, or runs of identical bits of length <=64); allocator reuse policy and fill pattern per run. Oracles: error against exp(A) in "
+             "__float128 within 2e3*n*u*(1+|A|_F)*exp(mu_2(A)); bit-identical result of the same call with the same bits on a fresh thread; UTransform against the dense formula, "
+             "norm preservation and s -> -s inversion; at most 1e4 random bits per call. distinct = hash of the sequence of (kind, n, class, norm band, previous n); "
+             "non-trivial = at least one non-diagonal input"),
+    "distinct_measure": "hash of the call sequence (kind, size, class, norm band relative to the Pade thresholds, previous size)",
+    "real_vs_stub": {"real": ["src/MatrixExp.cpp, src/SUNalg.cpp and headers from the working tree", "GSL 2.7.1 BLAS/LU/eigen (static)", "std::thread and thread-local scratch/RNG holders"],
+                     "simulated": ["gsl_rng_uniform_int as called by the 1-norm estimator (S7, link-time --wrap)", "operator new/delete and malloc/free of GSL (S1,S2: reuse policy, stale-content fill)",
+                                   "the call history (seeded workload)"]},
+    "assumptions": ["inputs whose exponential overflows are not generated", "reference exp(A): scaling-and-squaring Taylor series in __float128 (libgcc soft float), trusted",
+                    "mu_2 is computed with gsl_eigen_herm on the Hermitian part (trusted)", "GSL error handler off"],
+    "batches": {"quick": [{"engine": "expsim", "config": "asan", "runs": 12000, "deadline": 80}],
+                "thorough": [{"engine": "expsim", "config": "asan", "runs": 400000, "deadline": 1200}, {"engine": "expsim", "config": "plain", "runs": 2000000, "base": 400000, "deadline": 900}]},
+}
